@@ -1,0 +1,59 @@
+// +build verif
+
+// Package verifhook provides observation and fault-injection points for external
+// verification harnesses. With the "verif" build tag the functions dispatch to handlers
+// registered by the harness; unregistered handlers are no-ops.
+package verifhook
+
+import "sync/atomic"
+
+// Enabled reports whether the hooks are compiled in.
+const Enabled = true
+
+var (
+	pointFn atomic.Value // func(string)
+	yieldFn atomic.Value // func(string)
+	tearFn  atomic.Value // func(string, []byte) []byte
+	eventFn atomic.Value // func(string, []interface{})
+)
+
+// SetPoint registers the handler of Point.
+func SetPoint(f func(site string)) { pointFn.Store(f) }
+
+// SetYield registers the handler of Yield.
+func SetYield(f func(site string)) { yieldFn.Store(f) }
+
+// SetTear registers the handler of Tear.
+func SetTear(f func(site string, buf []byte) []byte) { tearFn.Store(f) }
+
+// SetEvent registers the handler of Event.
+func SetEvent(f func(site string, kv []interface{})) { eventFn.Store(f) }
+
+// Point marks a named program point.
+func Point(site string) {
+	if f, ok := pointFn.Load().(func(string)); ok && f != nil {
+		f(site)
+	}
+}
+
+// Yield marks a preemption point between two critical sections.
+func Yield(site string) {
+	if f, ok := yieldFn.Load().(func(string)); ok && f != nil {
+		f(site)
+	}
+}
+
+// Tear gives the harness a chance to shorten a buffer right before it is written.
+func Tear(site string, buf []byte) []byte {
+	if f, ok := tearFn.Load().(func(string, []byte) []byte); ok && f != nil {
+		return f(site, buf)
+	}
+	return buf
+}
+
+// Event reports a named event with optional key/value details.
+func Event(site string, kv ...interface{}) {
+	if f, ok := eventFn.Load().(func(string, []interface{})); ok && f != nil {
+		f(site, kv)
+	}
+}
